@@ -65,7 +65,7 @@ class ProgGen:
 
     def expr(self, depth=0):
         rng = self.rng
-        if depth >= 3 or rng.random() < 0.3:
+        if depth >= 2 or rng.random() < 0.3:
             return self.leaf()
         a = self.expr(depth + 1)
         b = self.expr(depth + 1)
